@@ -125,6 +125,37 @@ def seq_suffix_lemma(repo, tier):
     return [res]
 
 
+def _schedules(what, prop, repo, tier):
+    """bounded native exploration of cooperative schedules of the real code (replay/schedules.py): stand-in for what
+    the deductive jobs leave out and the source of concrete failing schedules (label: bounded, never counted as proved)"""
+    r = _native("schedules.py", repo, what, tier, timeout=3000)
+    name = f"bounded:{what}-schedules"
+    if "error" in r:
+        return [dict(_result(name, (prop,), []), crash=r["error"])]
+    v = r["violations"]
+    ob = {"name": f"bounded/{what}-schedules", "kind": "bounded", "status": "discharged" if not v else "failed", "count": 0,
+          "detail": f"{r['schedules']} schedules of {r['scenarios']} scenarios on the real code; {r['bound']}; "
+                    + (f"first violation: {json.dumps(v[0])[:700]}" if v else "no violation"),
+          "model": None, "trace": None, "native": {"violation": v[0], "more": v[1:3]} if v else None}
+    return [_result(name, (prop,), [ob])]
+
+
+def tee_schedules(repo, tier):
+    return _schedules("tee", "C09", repo, tier)
+
+
+def lru_schedules(repo, tier):
+    return _schedules("lru", "C11", repo, tier)
+
+
+def cached_property_schedules(repo, tier):
+    return _schedules("cached_property", "C12", repo, tier)
+
+
+def decorator_schedules(repo, tier):
+    return _schedules("decorator", "C15", repo, tier)
+
+
 def lru_methods(repo, tier):
     """lru_cache as method / classmethod / staticmethod against functools.lru_cache: bounded native stand-in on the real code"""
     r = _native("bounded.py", repo, "refs", tier)
